@@ -536,6 +536,19 @@ class Interp:
                         fr.env[k] = new
             return
         for x in self.iterate(it, st.iter, fr):
+            if isinstance(x, FamItem):
+                self.assign(st.target, x.term, fr)
+                lists_before = {k: (id(v), len(v)) for k, v in fr.env.items() if isinstance(v, list)}
+                self.exec_block(st.body, fr)
+                for k, v in list(fr.env.items()):
+                    if isinstance(v, list) and k in lists_before and lists_before[k][0] == id(v):
+                        n0 = lists_before[k][1]
+                        if len(v) > n0:
+                            new = FamList(v[:n0])
+                            for y in v[n0:]:
+                                new.append(FamItem(x.domain, y))
+                            fr.env[k] = new
+                continue
             self.assign(st.target, x, fr)
             try:
                 self.exec_block(st.body, fr)
@@ -1280,6 +1293,16 @@ class Interp:
                 out.append(FamItem(it.domain, body(sub)))
                 return
             for x in self.iterate(it, g.iter, sub):
+                if isinstance(x, FamItem):
+                    # generic member of an abstract family carried by a list
+                    if i != len(n.generators) - 1:
+                        raise self.err(n, "nested comprehension over an abstract family")
+                    self.assign(g.target, x.term, sub)
+                    for c in g.ifs:
+                        if not self.truth(self.eval(c, sub), c, sub):
+                            raise self.err(n, "filter on the generic member of an abstract family")
+                    out.append(FamItem(x.domain, body(sub)))
+                    continue
                 self.assign(g.target, x, sub)
                 if all(self.truth(self.eval(c, sub), c, sub) for c in g.ifs):
                     rec(i + 1)
